@@ -187,6 +187,8 @@ static int fnc_rawmatch (hawk_rtx_t* rtx, const hawk_fnc_info_t* fi)
  *   mode 1 (match):          subject converted as __fnc_match does (bytes iff MBS); one entry per suffix, matched as a
  *                            string of its own (str == substr, no NOTBOL), k = 0
  * entry = <c|b>:<pattern hex>:<subject hex>:<k>=<p>,<l> | ...=-     */
+#define FREEREX(rtx,rex) do { if ((rtx)->gbl.ignorecase) hawk_rtx_freerex (rtx, HAWK_NULL, rex); else hawk_rtx_freerex (rtx, rex, HAWK_NULL); } while (0)
+
 static int fnc_rawtable (hawk_rtx_t* rtx, const hawk_fnc_info_t* fi)
 {
 	hawk_val_t* a0 = hawk_rtx_getarg(rtx, 0), * a1 = hawk_rtx_getarg(rtx, 1);
@@ -199,7 +201,8 @@ static int fnc_rawtable (hawk_rtx_t* rtx, const hawk_fnc_info_t* fi)
 	pat.ptr = hawk_rtx_getvaloocstr(rtx, a0, &pat.len);
 	if (!pat.ptr) return -1;
 	sb_puts (&ph, ""); sb_hex_u (&ph, pat.ptr, pat.len);
-	n = hawk_rtx_buildrex(rtx, pat.ptr, pat.len, &rex, HAWK_NULL);
+	/* the same compilation the builtins use: the case-insensitive one while IGNORECASE is set */
+	n = rtx->gbl.ignorecase? hawk_rtx_buildrex(rtx, pat.ptr, pat.len, HAWK_NULL, &rex): hawk_rtx_buildrex(rtx, pat.ptr, pat.len, &rex, HAWK_NULL);
 	hawk_rtx_freevaloocstr (rtx, a0, pat.ptr);
 	if (n <= -1) { free (ph.p); hawk_rtx_seterrnum (rtx, HAWK_NULL, HAWK_ENOERR); return ret_bcstr(rtx, "E"); }
 	sb_puts (&b, "");
@@ -208,7 +211,7 @@ static int fnc_rawtable (hawk_rtx_t* rtx, const hawk_fnc_info_t* fi)
 	{
 		hawk_bcs_t s, cur, mat, whole;
 		s.ptr = hawk_rtx_getvalbcstr(rtx, a1, &s.len);
-		if (!s.ptr) { hawk_rtx_freerex (rtx, rex, HAWK_NULL); return -1; }
+		if (!s.ptr) { FREEREX (rtx, rex); return -1; }
 		for (k = 0; k <= s.len; k++)
 		{
 			if (mode == 0) { whole = s; cur.ptr = s.ptr + k; cur.len = s.len - k; }
@@ -227,7 +230,7 @@ static int fnc_rawtable (hawk_rtx_t* rtx, const hawk_fnc_info_t* fi)
 	{
 		hawk_oocs_t s, cur, mat, whole;
 		s.ptr = hawk_rtx_getvaloocstr(rtx, a1, &s.len);
-		if (!s.ptr) { hawk_rtx_freerex (rtx, rex, HAWK_NULL); return -1; }
+		if (!s.ptr) { FREEREX (rtx, rex); return -1; }
 		for (k = 0; k <= s.len; k++)
 		{
 			if (mode == 0) { whole = s; cur.ptr = s.ptr + k; cur.len = s.len - k; }
@@ -242,7 +245,7 @@ static int fnc_rawtable (hawk_rtx_t* rtx, const hawk_fnc_info_t* fi)
 		}
 		hawk_rtx_freevaloocstr (rtx, a1, s.ptr);
 	}
-	hawk_rtx_freerex (rtx, rex, HAWK_NULL);
+	FREEREX (rtx, rex);
 	hawk_rtx_seterrnum (rtx, HAWK_NULL, HAWK_ENOERR);
 	x = ret_bcstr(rtx, b.p);
 	free (b.p); free (ph.p);
